@@ -75,8 +75,15 @@ def op_text(op):
     return " ".join(str(x) for x in op)
 
 
+# lock kinds of rebuild_interest_cache / register_dispatch / register on the dispatcher list, as measured on the repository under
+# check by calibrate_locks (None = not measured: the harness assumes excl excl shared, what the model has)
+LOCKS = None
+
+
 def case_text(case):
     out = ["threads %d" % case["n"]]
+    if LOCKS is not None and any(case["progs"]):
+        out.append("locks " + " ".join(LOCKS))
     for fid, sp in enumerate(case["filters"]):
         out.append("filter %d %s" % (fid, " ".join(str(x) for x in sp)))
     for t, op in case["pre"]:
@@ -219,6 +226,14 @@ def c04_families():
         "n": 2, "filters": f, "pre": [(0, ("new", 0, 1, P)), (0, ("setdefault", 0)), (1, ("setdefault", 0))],
         "progs": [[("emit", 3)], [("emit", 1)]],
         "post": [(1, ("new", 1, 0, P)), (0, ("setdefault", 1)), (1, ("setdefault", 1)), (0, ("emit", 3)), (0, ("emit", 1)), (1, ("emit", 3)), (1, ("emit", 1))]}))
+    # first hit on T1 while T0 reloads the collector's filter (reload = assign + rebuild_interest_cache): the rebuild must not run
+    # inside register's window between asking the collectors and pushing the callsite (the write lock excludes it)
+    fam.append(("firsthit-vs-reload-to-rejecting", {
+        "n": 2, "filters": f, "pre": [(0, ("new", 0, 0, "rlayer")), (0, ("setdefault", 0)), (1, ("setdefault", 0))],
+        "progs": [[("reload", 0, 1)], [("emit", 3)]], "post": [(1, ("emit", 3)), (0, ("emit", 3)), (0, ("emit", 8))]}))
+    fam.append(("firsthit-vs-reload-to-accepting", {
+        "n": 2, "filters": f, "pre": [(0, ("new", 0, 1, "rlayer")), (0, ("setdefault", 0)), (1, ("setdefault", 0))],
+        "progs": [[("reload", 0, 0)], [("emit", 3)]], "post": [(1, ("emit", 3)), (0, ("emit", 3))]}))
     # the max level: callsite 3 is above the only collector's hint until T0's new collector raises it
     fam.append(("new-raises-max-level", {
         "n": 2, "filters": f, "pre": [(0, ("new", 0, 2, P)), (1, ("setdefault", 0))],
@@ -274,6 +289,10 @@ def c12_families():
         "n": 2, "filters": f, "pre": [(0, ("new", 0, 5, "rlayer2")), (0, ("setdefault", 0)), (1, ("setdefault", 0)), (1, ("emit", 3))],
         "progs": [[("reload", 0, 1)], [("emit", 3), ("emit", 1)]],
         "post": [(1, ("emit", 3)), (0, ("emit", 1)), (0, ("reload", 0, 5)), (1, ("emit", 3))]}))
+    # two reloads whose rebuilds would race on MAX_LEVEL if rebuilds were not serialised: the later assignment (TRACE) must win
+    fam.append(("two-reloads-max-level", {
+        "n": 2, "filters": f, "pre": [(0, ("new", 0, 0, "rlayer")), (0, ("setdefault", 0)), (1, ("setdefault", 0)), (1, ("emit", 3))],
+        "progs": [[("reload", 0, 1)], [("reload", 0, 0)]], "post": [(1, ("emit", 3)), (0, ("emit", 3)), (0, ("emit", 9))]}))
     # `sometimes` values: dyn -> dyn with a lower threshold
     fam.append(("reload-dyn-dyn", {
         "n": 2, "filters": f, "pre": [(0, ("new", 0, 3, "rfilter")), (0, ("setdefault", 0)), (1, ("setdefault", 0)), (1, ("emit", 3))],
@@ -352,6 +371,41 @@ def run_impl(ctx, binpath, cases, tag):
             ctx.notes.append("%s: %d of the first %d cases hung; the remaining %d cases were not run" % (tag, hung, len(head), len(cases) - len(head)))
             return head
         return head + list(ex.map(one, list(enumerate(cases))[16:]))
+
+
+def calibrate_locks(ctx, rep, binpath):
+    """Measure, on the real code, whether rebuild_interest_cache / Dispatch::new / a second registration can enter their lock
+    section while another thread sits inside callsite::register holding its lock (released regardless of the probe, 400 ms to
+    reach the next yield point).  The forced schedules then release a thread parked before an acquisition exactly when that kind
+    of acquisition can succeed -- so a repository in which e.g. a rebuild only takes the read lock really runs the rebuild inside
+    register's window, and the oracle judges what comes out.  The kinds the model has are excl / excl / shared (tie)."""
+    global LOCKS
+    LOCKS = None
+    kinds = []
+    for name, p0 in (("rebuild_interest_cache", [("rebuild",)]), ("register_dispatch", [("new", 1, 0, "plain")]), ("register", [("emit", 8)])):
+        # a collector must exist (else the max level stops the emission before it registers)
+        case = {"n": 2, "filters": [("level", 5)], "pre": [(0, ("new", 0, 0, "plain"))], "progs": [p0, [("emit", 3)]], "sched": [], "post": []}
+        path = os.path.join(ctx.work, "calib_%s.case" % name)
+        os.makedirs(ctx.work, exist_ok=True)
+        with open(path, "w") as f:
+            f.write("calibrate\n" + case_text(case))
+        rc, out = vlib.run_bin(binpath, [path], timeout=120)
+        shared = None
+        for line in out.splitlines():
+            if line.startswith("{") and '"calib"' in line:
+                try:
+                    shared = json.loads(line).get("shared")
+                except ValueError:
+                    pass
+        kinds.append(None if shared is None else ("shared" if shared else "excl"))
+    if all(k is not None for k in kinds):
+        LOCKS = tuple(kinds)
+        ok = LOCKS == ("excl", "excl", "shared")
+        rep.tie("lock-kinds-as-modelled", ok, "rebuild_interest_cache / register_dispatch / register take %s / %s / %s access to the dispatcher list "
+                "(the model: excl / excl / shared)" % LOCKS, None if ok else {"measured": list(LOCKS)})
+    else:
+        ctx.notes.append("lock kinds could not be measured (%s): the harness assumes excl / excl / shared" % kinds)
+    rep.extra["lock_kinds"] = list(kinds)
 
 
 # ------------------------------------------------------------------------------------------------
@@ -577,6 +631,7 @@ def phase1_oracle(case, impl, S, viol, flags, finding_mid_install):
     inop = [False] * case["n"]
     emits = {}                       # t -> dict of the running emission
     inflight_old = {}                # t -> (c, old value) for a reload past its assignment
+    sg = {}                          # t -> state of a running set_global_default
     done_emits = []
     preempted_inside = False
     last = None
@@ -596,6 +651,16 @@ def phase1_oracle(case, impl, S, viol, flags, finding_mid_install):
                     vals.add(S.val[c0])
                     vals.update(old for (c, old) in inflight_old.values() if c == c0)
                 emits[t] = {"t": t, "cs": op[1], "start": i, "cur0": c0, "vals": vals, "glob_at_start": S.glob, "installed": set()}
+            if op[0] == "setglobal":
+                # the handle is cloned out of the slot when the operation starts; who wins a race of two set_global_default
+                # calls is decided by the GLOBAL_INIT CAS, not by which call returns first: a call that parks at yield 71 / 72
+                # has won the CAS (those points are in the success branch only), a call that returns from 70 has lost
+                sg[t] = {"has": op[1] in S.slot, "parked": False, "won": False}
+        if op[0] == "setglobal" and t in sg:
+            if y == 70:
+                sg[t]["parked"] = True
+            elif y in (71, 72):
+                sg[t]["won"] = True
         if op[0] == "reload" and y == 82:
             # the assignment happened in this step
             _, c, fid = op
@@ -616,6 +681,10 @@ def phase1_oracle(case, impl, S, viol, flags, finding_mid_install):
                 before_glob = S.glob
                 if op[0] == "reload":
                     inflight_old.pop(t, None)      # the value change was applied at the assignment step
+                elif op[0] == "setglobal":
+                    g = sg.pop(t, None)
+                    if g is not None and g["has"] and (g["won"] or (not g["parked"] and S.glob is None)):
+                        S.glob = op[1]             # visible from the INITIALIZED store, which is in this (last) step
                 else:
                     S.apply(t, op)
                 if S.glob != before_glob:
